@@ -12,7 +12,8 @@ Lg == T.log
 N == Len(Lg)
 Typ(q) == T.reqs[q].typ
 \* epoch of a log position: number of expiries before it
-Epoch(k) == Cardinality({j \in 1..k : Lg[j].e = "expire"})
+Elapsed(j) == Lg[j].e \in {"expire", "lapse"}      \* the lifetime elapsed: followed by a sweep / not swept yet
+Epoch(k) == Cardinality({j \in 1..k : Elapsed(j)})
 IsReply(k) == Lg[k].e = "reply"
 IsRun(k) == Lg[k].e = "run"
 Attributed(k) == Lg[k].q # 0
@@ -27,7 +28,7 @@ TokOK(k, q) == Len(Lg[k].tok) >= 2 /\ SubSeq(Lg[k].tok, 1, 2) = Tok(q)
 C05_NoHang == J => ~T.hung
 \* "is not handed to the application handler a second time" within the lifetime
 C05_Once == J => \A a, b \in 1..N :
-              (a < b /\ IsRun(b) /\ Lg[a].q = Lg[b].q /\ Epoch(a) = Epoch(b) /\ Lg[a].e # "expire")
+              (a < b /\ IsRun(b) /\ Lg[a].q = Lg[b].q /\ Epoch(a) = Epoch(b) /\ ~Elapsed(a))
                  => ~((Typ(Lg[a].q) = "CON" /\ IsRun(a)) \/ (IsReply(a) /\ Lg[a].ran))
 \* "each duplicate is instead answered with a reply of the same code, token, options and payload as the first one
 \*  (a bare acknowledgement if that is what the first copy got), matched to the duplicate's message ID"
@@ -52,7 +53,16 @@ C05_NoForeignReply == J => \A k \in 1..N :
 K05_Attributed == J => \A k \in 1..N : IsReply(k) => Attributed(k)
 \* "once the lifetime has elapsed the ID is treated as fresh again" - and not before: the housekeeping sweep
 \* 50 ms before the first deadline removes nothing, the one 50 ms after the last removes everything; 247 s lifetime
-C05_Lifetime == J => \A k \in 1..N : Lg[k].e = "expire" => (Lg[k].copy = Lg[k].q /\ Lg[k].code = 0 /\ Lg[k].mid \in 245..247)
+\* (the remaining lifetime is only meaningful while the driver has not aged the entries itself)
+C05_Lifetime == J => \A k \in 1..N : Lg[k].e = "expire" => (Lg[k].copy = Lg[k].q /\ Lg[k].code = 0
+                                                              /\ ((\A j \in 1..k : Lg[j].e # "lapse") => Lg[k].mid \in 245..247))
+\* ... whether or not a sweep has removed the old entry: a reply that did not come from a handler run of its own was
+\* produced from something stored IN THIS lifetime (a run, or a reply that ran, for the same request)
+C05_FreshAgain == J => \A k \in 1..N : (IsReply(k) /\ Attributed(k) /\ ~Lg[k].ran /\ Epoch(k) > 0) =>
+                    \* (a handler that was entered before the lifetime elapsed may deliver afterwards; the order of two replies
+                    \*  on the wire is not part of the statement - see C05_SameReply)
+                    \E a \in 1..N : /\ Epoch(a) = Epoch(k) /\ ~Elapsed(a) /\ Lg[a].q = Lg[k].q
+                                    /\ ((IsRun(a) /\ a < k) \/ (IsReply(a) /\ Lg[a].ran))
 \* nothing is left locked
 C05_LocksReleased == J => T.midLocks = 0
 =============================================================================
